@@ -425,3 +425,109 @@ func (m *Model) ifTruthCases() (bad string, decided bool, why string) {
 	}
 	return "", true, ""
 }
+
+// ternaryCases: `c ? a : b` evaluates c once, then exactly one arm — a for every truthy row of the truthiness table,
+// b for every falsy one — and yields that arm's result unchanged (an error object included); a failing c yields its
+// error and evaluates no arm.
+func (m *Model) ternaryCases() (bad string, decided bool, why string) {
+	if m.ternDone {
+		return m.ternBad, m.ternDecided, m.ternWhy
+	}
+	m.ternDone = true
+	set := func(b string, d bool, w string) (string, bool, string) {
+		m.ternBad, m.ternDecided, m.ternWhy = b, d, w
+		return b, d, w
+	}
+	ev := m.Method("evaluator", "Evaluator", "Eval")
+	nt := m.namedType("ast", "TernaryExp")
+	htmlT, errT, envT := m.namedType("object", "HTML"), m.namedType("object", "Error"), m.namedType("object", "Env")
+	truthy, falsy, ok := m.truthValues()
+	if ev == nil || nt == nil || htmlT == nil || errT == nil || envT == nil || !ok {
+		return set("", false, "Eval / ast.TernaryExp / object types not found")
+	}
+	fCond, fCons, fAlt := -1, -1, -1
+	st := nt.Underlying().(*types.Struct)
+	for i := 0; i < st.NumFields(); i++ {
+		switch canonFieldName(nt, i, st.Field(i).Name()) {
+		case "Condition":
+			fCond = i
+		case "Consequence":
+			fCons = i
+		case "Alternative":
+			fAlt = i
+		}
+	}
+	if fCond < 0 || fCons < 0 || fAlt < 0 {
+		return set("", false, "fields of ast.TernaryExp not found")
+	}
+	type tc struct {
+		val  *iStruct
+		want string
+	}
+	var cases []tc
+	for _, v := range truthy {
+		cases = append(cases, tc{v, "then"})
+	}
+	for _, v := range falsy {
+		cases = append(cases, tc{v, "else"})
+	}
+	cases = append(cases, tc{&iStruct{typ: errT, fields: map[int]any{}}, "error"})
+	for _, c := range cases {
+		for _, armFails := range []bool{false, true} {
+			cnode, anode, bnode := iObj{"condition"}, iObj{"then"}, iObj{"else"}
+			armT := htmlT
+			if armFails {
+				armT = errT
+			}
+			aRes, bRes := &iStruct{typ: armT, fields: map[int]any{}}, &iStruct{typ: armT, fields: map[int]any{}}
+			node := &iStruct{typ: nt, fields: map[int]any{fCond: cnode, fCons: anode, fAlt: bnode}}
+			envIn := &iStruct{typ: envT, fields: map[int]any{}}
+			ip := &Interp{m: m, useGlobals: true}
+			var events []string
+			sameEnv := true
+			ip.call = func(cl *ssa.Call, args []any) (any, bool) {
+				if cl.Call.StaticCallee() == ev && len(args) >= 3 {
+					switch args[1] {
+					case any(cnode):
+						events = append(events, "condition")
+						sameEnv = sameEnv && args[2] == any(envIn)
+						return c.val, true
+					case any(anode):
+						events = append(events, "then")
+						sameEnv = sameEnv && args[2] == any(envIn)
+						return aRes, true
+					case any(bnode):
+						events = append(events, "else")
+						sameEnv = sameEnv && args[2] == any(envIn)
+						return bRes, true
+					}
+				}
+				return nil, false
+			}
+			res, known := ip.Run(ev, []any{iObj{"evaluator"}, node, envIn})
+			if ip.stuck != "" || len(ip.lost) > 0 {
+				return set("", false, "condition "+describeObj(c.val)+": "+ip.stuck)
+			}
+			want := []string{"condition"}
+			var wantRes *iStruct
+			switch c.want {
+			case "then":
+				want, wantRes = append(want, "then"), aRes
+			case "else":
+				want, wantRes = append(want, "else"), bRes
+			default:
+				wantRes = c.val
+			}
+			if strings.Join(events, " ") != strings.Join(want, " ") {
+				return set(fmt.Sprintf("with the condition %s it evaluates [%s], expected [%s]", describeObj(c.val), strings.Join(events, ", "), strings.Join(want, ", ")), true, "")
+			}
+			if o, isO := res.(*iStruct); !known || !isO || o != wantRes {
+				return set(fmt.Sprintf("with the condition %s it does not yield the result of its %s part unchanged", describeObj(c.val), map[string]string{"then": "then", "else": "else", "error": "condition (the error)"}[c.want]), true, "")
+			}
+			if !sameEnv {
+				return set(fmt.Sprintf("with the condition %s a part is not evaluated in the scope of the expression", describeObj(c.val)), true, "")
+			}
+		}
+	}
+	return set("", true, "")
+}
